@@ -79,12 +79,15 @@ def run_case(ctx, case):
             ble.mac = assigned
         else:
             ble.mac = None
-        mac = bytes(ble.mac)
-        if len(mac) != 6:
+        lazy_mac = mac_kind == "short" and case["seed"] % 2 == 0
+        # (a short address is completed with random bytes; when nothing has read ble.mac yet the
+        # completed value is learnt from the first packet and compared with the attribute afterwards)
+        mac = bytes(ble.mac) if not lazy_mac else None
+        if mac is not None and len(mac) != 6:
             ctx.violation("mac-length", "mac attribute has %d bytes after assigning a %s value"
                           % (len(mac), mac_kind), case)
             return
-        if assigned is not None and mac[:len(assigned)] != assigned and not (mac_kind == "int" and mac == assigned_alt):
+        if mac is not None and assigned is not None and mac[:len(assigned)] != assigned and not (mac_kind == "int" and mac == assigned_alt):
             ctx.violation("mac-not-as-assigned", "mac assigned as %s %s reads back as %s"
                           % (mac_kind, assigned.hex(), mac.hex()), case)
             return
@@ -97,6 +100,16 @@ def run_case(ctx, case):
                 ble.name = None
                 return
             raw = bytes(rng.choice(b"abcdefghijklmnopqrstuvwxyz0123456789") for _ in range(case["name_len"]))
+            if case["name_type"] == "str" and case["seed"] % 3 == 0 and case["name_len"] >= 2:
+                # a text name with multi-byte UTF-8 characters: what counts is its length in BYTES
+                txt = ""
+                while len((txt + "\u00e9").encode()) <= case["name_len"]:
+                    txt += rng.choice(["\u00e9", "\u6e29", "a", "\u00fc"])
+                    if len(txt.encode()) > case["name_len"]:
+                        txt = txt[:-1]
+                        break
+                txt += "x" * (case["name_len"] - len(txt.encode()))
+                raw = txt.encode()
             val = raw.decode() if case["name_type"] == "str" else (raw if case["name_type"] == "bytes" else bytearray(raw))
             ble.name = val
             name = raw
@@ -239,7 +252,9 @@ def run_case(ctx, case):
                 bad = "header %02X" % d["header"]
             elif d["length"] != 6 + sum(2 + len(x[1]) for x in exp_ad):
                 bad = "length byte %d, expected %d" % (d["length"], 6 + sum(2 + len(x[1]) for x in exp_ad))
-            elif d["mac"] != mac:
+            elif mac is None and (d["mac"][:len(assigned)] != assigned or bytes(ble.mac) != d["mac"]):
+                bad = "MAC %s on air, assigned prefix %s, attribute now %s" % (d["mac"].hex(), assigned.hex(), bytes(ble.mac).hex())
+            elif mac is not None and d["mac"] != mac:
                 bad = "MAC %s, configured %s" % (d["mac"].hex(), mac.hex())
             elif d["ad"] != exp_ad:
                 bad = "AD structures %r, expected %r" % (d["ad"], exp_ad)
